@@ -150,7 +150,7 @@ PROPS = {
     "C07": dict(
         pkg="c07",
         quick=T(4, 3, 600),
-        thorough=T(16, 500, 3000),
+        thorough=T(16, 250, 3000),
         assumptions=["crypto/ed25519 of the Go standard library is the RFC 8032 reference (differential oracle)"],
     ),
     "C08": dict(
